@@ -137,6 +137,7 @@ def _const_list(c):
 # ---- MarginalImputer ----------------------------------------------------------------------------------------
 fn('MarginalImputer.__init__', F + 'marginal_imputer.py', kind='init', self_cls='Imputer',
    params={'model_function': TFnRole('model'), 'sampling_strategy': TKey, 'storage_object': TObj('Storage')},
+   requires={'storage_inv': lambda c: INV('Storage', c.a.storage_object.term)},
    ghost_update=lambda c: {'kind': 1},
    ensures={'cfg': lambda c: land(c.new.sampling_strategy == c.a.sampling_strategy,
                                   c.new.model_function == VALIDATE(c.a.model_function),
